@@ -184,7 +184,12 @@ class SimFS:
             w.ev('open', path=file, mode=mode, res=kind)
             raise cls(code, msg + ' (simulated)', file)
         from sim import docgen
-        data = docgen.file_text(spec).encode(spec.get('enc', 'utf-8'))
+        text = docgen.file_text(spec)
+        if spec.get('crlf'):
+            # a file with Windows line ends: the real open() in text mode
+            # (newline=None) translates them, and so does the wrapper below
+            text = text.replace('\n', '\r\n')
+        data = text.encode(spec.get('enc', 'utf-8'))
         limit = None
         if kind == 'undecodable':
             at = min(fault.get('at', 0), len(data))
@@ -625,8 +630,10 @@ def build_request_bytes(req):
     fields = [list(f) for f in req.get('fields', [])]
     if req.get('doc') is not None:
         from sim import docgen
-        fields.insert(min(req.get('text_pos', 1), len(fields)),
-                      ['text', docgen.file_text(req['doc'])])
+        text = docgen.file_text(req['doc'])
+        if req.get('crlf'):
+            text = text.replace('\n', '\r\n')    # editor with CRLF buffers
+        fields.insert(min(req.get('text_pos', 1), len(fields)), ['text', text])
     body = urllib.parse.urlencode([tuple(f) for f in fields],
                                   encoding='utf-8').encode('ascii')
     fault = req.get('fault') or {}
